@@ -27,6 +27,29 @@ FH_SIZE_MEMO = "        if self._size is not None:\n            return defer.suc
 CODEC_DECODE_TAIL = ("        return await defer_to_thread(\n            self.decoder.decode,\n            some_shares,\n"
                      "            [int(s) for s in their_shareids]\n        )\n")
 
+LOOP_HEAD = "    # internal methods\n    def loop(self):\n"
+LOOP_HELPERS_HEAD = ("    # internal methods\n"
+                     "    def _next_server(self):\n"
+                     "        if self._servers is None:\n            return None\n"
+                     "        server = next(self._servers, None)\n"
+                     "        if server is None:\n            self._servers = None\n"
+                     "        return server\n\n"
+                     "    def _may_send_more(self):\n"
+                     "        non_overdue = self.pending_requests - self.overdue_requests\n"
+                     "        return len(non_overdue) < self.max_outstanding_requests\n\n"
+                     "    def loop(self):\n")
+LOOP_LIMIT = ("        non_overdue = self.pending_requests - self.overdue_requests\n"
+              "        if len(non_overdue) >= self.max_outstanding_requests:\n"
+              "            # cannot send more requests, must wait for some to retire\n"
+              "            return\n\n")
+LOOP_TAKE = ("        server = None\n"
+             "        try:\n"
+             "            if self._servers:\n"
+             "                server = next(self._servers)\n"
+             "        except StopIteration:\n"
+             "            self._servers = None\n\n"
+             "        if server:\n")
+
 MUTANTS = [
     # ---- C01.1 size formulas
     M("numseg-floor-on-writer", ENC,
@@ -625,6 +648,77 @@ MUTANTS = [
       "    def __init__(self, consumer, readkey, offset):\n        self._consumer = consumer\n        self._read_ev = None\n",
       "    def __init__(self, consumer, readkey, offset, logparent=None):\n        self._consumer = consumer\n        self._lp = logparent\n        self._read_ev = None\n",
       None),
+    # ---- C01.18: every server taken off the finder's iterator is asked
+    M("server-taken-before-the-request-limit-is-checked-helpers", FINDER, LOOP_HEAD, LOOP_HELPERS_HEAD, "C01.18",
+      edits=[(FINDER, LOOP_TAKE, "        server = self._next_server()\n        if server is not None and self._may_send_more():\n")]),
+    M("request-limit-checked-after-the-take-in-place", FINDER, LOOP_LIMIT, "", "C01.18",
+      edits=[(FINDER, "        if server:\n            self.send_request(server)\n",
+              LOOP_LIMIT + "        if server:\n            self.send_request(server)\n")]),
+    M("for-over-the-servers-breaks-on-the-limit", FINDER, LOOP_LIMIT + LOOP_TAKE,
+      "        if self._servers is not None:\n"
+      "            for server in self._servers:\n"
+      "                if len(self.pending_requests - self.overdue_requests) >= self.max_outstanding_requests:\n"
+      "                    return\n"
+      "                self.send_request(server)\n"
+      "            self._servers = None\n"
+      "        if False:\n", "C01.18"),
+    M("every-other-server-skipped-while-a-request-is-pending", FINDER, "                server = next(self._servers)\n",
+      "                server = next(self._servers)\n"
+      "                if self.pending_requests:\n                    server = next(self._servers)\n", "C01.18"),
+    M("query-helper-asks-only-servers-with-a-long-name", FINDER, "            self.send_request(server)\n",
+      "            self._ask(server)\n", "C01.18",
+      edits=[(FINDER, "    def send_request(self, server):\n",
+              "    def _ask(self, server):\n        if len(server.get_name()) > 4:\n            self.send_request(server)\n\n"
+              "    def send_request(self, server):\n")]),
+    M("benign-helpers-limit-checked-before-the-take", FINDER, LOOP_HEAD, LOOP_HELPERS_HEAD, None,
+      edits=[(FINDER, LOOP_LIMIT + LOOP_TAKE,
+              "        if not self._may_send_more():\n            # cannot send more requests, must wait for some to retire\n"
+              "            return\n\n"
+              "        server = self._next_server()\n        if server is not None:\n")]),
+    M("benign-next-with-default-in-place", FINDER, LOOP_TAKE,
+      "        server = None\n"
+      "        if self._servers is not None:\n"
+      "            server = next(self._servers, None)\n"
+      "            if server is None:\n                self._servers = None\n\n"
+      "        if server is not None:\n", None),
+    M("benign-take-and-ask-in-one-helper", FINDER, LOOP_TAKE + "            self.send_request(server)\n",
+      "        if self._ask_next_server():\n", None,
+      edits=[(FINDER, LOOP_HEAD,
+              "    # internal methods\n"
+              "    def _ask_next_server(self):\n"
+              "        if self._servers is None:\n            return False\n"
+              "        for server in self._servers:\n"
+              "            self.send_request(server)\n            return True\n"
+              "        self._servers = None\n        return False\n\n"
+              "    def loop(self):\n")]),
+    M("benign-query-sent-on-the-next-turn", FINDER, "            self.send_request(server)\n",
+      "            eventually(self.send_request, server)\n", None),
+    M("benign-server-put-back-when-the-limit-is-reached", FINDER, LOOP_LIMIT, "", None,
+      edits=[(FINDER, "        if server:\n            self.send_request(server)\n",
+              "        if server and len(self.pending_requests - self.overdue_requests) >= self.max_outstanding_requests:\n"
+              "            self._servers = itertools.chain([server], self._servers)\n            return\n"
+              "        if server:\n            self.send_request(server)\n"),
+             (FINDER, "import time\n", "import time\nimport itertools\n")]),
+    M("servers-sliced-off-the-iterator-cannot-be-followed", FINDER, "                server = next(self._servers)\n",
+      "                server = list(itertools.islice(self._servers, 1))[0]\n", "ANALYSIS-ERROR",
+      edits=[(FINDER, "import time\n", "import time\nimport itertools\n")]),
+    M("iterator-given-up-when-a-query-cannot-be-sent", FINDER, "                server = next(self._servers)\n        except StopIteration:\n",
+      "                server = next(self._servers)\n                self.send_request(server)\n                eventually(self.loop)\n"
+      "                return\n        except Exception:\n", "C01.18"),
+    M("iterator-given-up-when-a-falsy-limit-is-hit", FINDER, LOOP_TAKE,
+      "        server = None\n"
+      "        if self._servers is not None:\n"
+      "            server = next(self._servers, None)\n"
+      "        if server is None or not self.pending_requests:\n            self._servers = None\n\n"
+      "        if server is not None:\n", "C01.18"),
+    M("benign-iterator-given-up-at-the-end-of-a-for", FINDER, LOOP_TAKE,
+      "        if self._servers is not None:\n"
+      "            for server in self._servers:\n"
+      "                self.send_request(server)\n                eventually(self.loop)\n                return\n"
+      "            self._servers = None\n"
+      "        server = None\n        if server:\n", None),
+    M("vanish-server-list-not-from-the-broker", FINDER, "            servers = self._storage_broker.get_servers_for_psi(si)\n",
+      "            servers = self._storage_broker.get_servers_for_download(si)\n", "ANALYSIS-ERROR"),
     # ---- vanished anchor
     M("vanish-read-encrypted", UPL, "    def read_encrypted(self, length, hash_only):", "    def read_ciphertext(self, length, hash_only):",
       "ANALYSIS-ERROR"),
